@@ -15,7 +15,7 @@ ALIAS = {"u8": "uint8", "u16": "uint16", "u32": "uint32", "u64": "uint64", "i8":
          "i32": "int32", "i64": "int64", "f32": "float32", "f64": "float64", "char": "char"}
 UNSIGNED = ["u8", "u16", "u32", "u64"]
 INTS = ["u8", "u16", "u32", "u64", "i8", "i16", "i32", "i64"]
-PADCHARS = ["'0'", "' '", "'\\x00'"]
+PADCHARS = ["'0'", "' '", "'\\x00'", ""]      # "" = `@leftPad()`: a space
 PKT_NAMES = ["Logon", "Logout", "Heartbeat", "NewOrder", "Cancel", "ExecReport", "Quote", "Trade", "Reject",
              "Status", "Detail", "Leg", "Party", "Ack", "Snapshot", "Entry"]
 FLD_NAMES = ["MsgType", "BodyLen", "Body", "SeqNum", "ClOrdID", "Price", "Qty", "Side", "Symbol", "Account", "Text",
@@ -60,6 +60,7 @@ class Cfg:
         self.inline_rich = True          # inline objects may hold references, match fields, MetaData-typed fields
         self.meta_pad_attr = True        # padding attributes on MetaData-typed fixed strings
         self.length_any_target = False   # @lengthOf aimed at a string / scalar / fixed string / list / inline object (the visitor accepts any member)
+        self.more_attrs = True           # docs on length / checksum fields, @tag on every kind of field, several MetaData / options blocks
         self.wide_keys = True            # match keys that are 64-bit integers, fixed strings or MetaData-typed members
         self.def_order = True            # top-level definitions in any order (MetaData / options after the packets using them)
         self.__dict__.update(kw)
@@ -80,7 +81,7 @@ def gen_options(rng, cfg):
         if rng.random() < 0.25:
             opts.append(("FixedStringPadFromLeft", rng.choice(["true", "false"])))
         if rng.random() < 0.25:
-            opts.append(("FixedStringPadChar", rng.choice(["'0'", "' '"])))
+            opts.append(("FixedStringPadChar", rng.choice(["'0'", "' '", "'\\x00'"])))
     if rng.random() < 0.5:
         opts.append(("JavaPackage", '"com.example.msg"'))
     if rng.random() < 0.5:
@@ -158,7 +159,12 @@ def gen_program(rng, cfg=None):
             al["doc"] = "`%s`" % al["name"]
             entries.append(al)
             metas.append(al)
-        prog["metas"].append({"name": "Types", "entries": entries})
+        k = rng.randint(1, len(entries) - 1) if (cfg.more_attrs and len(entries) > 1 and rng.random() < 0.3) else None
+        if k is not None and not any(e.get("alias_of") for e in entries):     # a reference declaration names an EARLIER entry
+            prog["metas"].append({"name": "Types", "entries": entries[:k]})
+            prog["metas"].append({"name": "Common", "entries": entries[k:]})
+        else:
+            prog["metas"].append({"name": "Types", "entries": entries})
     npk = rng.randint(1, cfg.max_packets)
     pnames = _names(rng, PKT_NAMES, npk)
     # packet 0 is the root; later packets may only reference packets with a larger index (no cycles)
@@ -272,6 +278,11 @@ def gen_program(rng, cfg=None):
                 fields.append(f)
         _dedupe(fields)
         for f in fields:
+            if cfg.more_attrs and f["kind"] in ("length", "checksum") and rng.random() < 0.25:
+                f["doc"] = "`%s doc`" % f["name"]
+            if cfg.more_attrs and cfg.allow_tag and f["kind"] in ("ref", "match", "inline", "length", "checksum", "metaref") and rng.random() < 0.06:
+                f["tag"] = rng.randint(1, 999)
+        for f in fields:
             t = f.pop("_tobj", None)
             if t is not None:     # the name the target ended up with
                 f["target"] = t["meta"] if (t["kind"] == "metaref" and not t["named"]) else t["name"]
@@ -290,6 +301,8 @@ def gen_program(rng, cfg=None):
                         if g.get("target") == old_name:
                             g["target"] = m["name"]
         prog["packets"].append({"name": pn, "root": i == 0, "fields": fields})
+    if cfg.more_attrs and rng.random() < 0.15:
+        prog["split_options"] = rng.randrange(1, 8)
     if cfg.def_order and rng.random() < 0.3:
         # the grammar takes definitions in any order and the visitor makes three passes
         # (MetaData, options, packets), so the order carries no meaning
@@ -444,8 +457,12 @@ def field_name(f):
 def render(prog, L=None):
     L = L or Layout()
     parts = []
-    if prog["options"]:
-        body = "".join(L.nl(1) + "%s%s=%s%s;" % (k, L.sp(), L.sp(), v) for k, v in prog["options"])
+    optblocks = [prog["options"]] if prog["options"] else []
+    if prog.get("split_options") and len(prog["options"]) > 1:
+        k = prog["split_options"] % (len(prog["options"]) - 1) + 1
+        optblocks = [prog["options"][:k], prog["options"][k:]]
+    for ob in optblocks:
+        body = "".join(L.nl(1) + "%s%s=%s%s;" % (k, L.sp(), L.sp(), v) for k, v in ob)
         parts.append("options" + L.sp() + "{" + body + L.nl(0) + "}")
     for m in prog["metas"]:
         body = "".join(L.nl(1) + (render_field(e, L, 1, False) if not e.get("alias_of") else
@@ -457,7 +474,7 @@ def render(prog, L=None):
         parts.append(("root" + L.sp() if p["root"] else "") + "packet" + L.sp() + p["name"] + L.sp() + "{" + body + L.nl(0) + "}")
     o = prog.get("def_order")
     if o is not None:
-        no = 1 if prog["options"] else 0
+        no = len(optblocks)
         nm = len(prog["metas"])
         if o == "meta-last":
             parts = parts[:no] + parts[no + nm:] + parts[no:no + nm]
